@@ -38,6 +38,7 @@ import (
 	"gitlab.com/aquachain/aquachain/common/mclock"
 	"gitlab.com/aquachain/aquachain/common/metrics"
 	"gitlab.com/aquachain/aquachain/common/prque"
+	"gitlab.com/aquachain/aquachain/common/verifhook"
 	"gitlab.com/aquachain/aquachain/consensus"
 	"gitlab.com/aquachain/aquachain/core/state"
 	"gitlab.com/aquachain/aquachain/core/types"
@@ -945,6 +946,7 @@ func (bc *BlockChain) WriteBlockWithState(block *types.Block, receipts []*types.
 		return NonStatTy, consensus.ErrUnknownAncestor
 	}
 	// Make sure no inconsistent state is leaked during insertion
+	verifhook.Point("blockchain.WriteBlockWithState.lock", block.Hash())
 	bc.mu.Lock()
 	defer bc.mu.Unlock()
 
